@@ -219,7 +219,7 @@ def validate(ctx, jobs_events, mode, label, chunk_events=12000, max_rejections=2
                 if res["postcondition_failed"] or res["distinct"] != len(lines) + 1:
                     raise ToolingError("trace %s chunk %d not fully consumed (%d states for %d lines):\n%s" % (
                         label, ci, res["distinct"], len(lines), res["out"][-1500:]))
-                done_events = len(lines)
+                done_events += len(lines)
                 break
             # parse the violating state: last state of the printed behaviour
             out = res["out"]
@@ -231,7 +231,11 @@ def validate(ctx, jobs_events, mode, label, chunk_events=12000, max_rejections=2
             clauses = re.findall(r'"([^"]+)"', bads[-1])
             jid, ev = owner[lnum - 2]
             rej.append({"job": jid, "clauses": clauses, "event": ev, "line": lnum - 1})
-            chunk = [(j, e) for (j, e) in chunk if j != jid]
+            # The walk is one state per line in line order, so every job BEFORE the rejected one has been accepted:
+            # only the jobs after it are validated again.
+            pos = [i for i, (j, e) in enumerate(chunk) if j == jid][0]
+            done_events += sum(len(e) for (j, e) in chunk[:pos])
+            chunk = [(j, e) for (j, e) in chunk[pos + 1:] if j != jid]
         return done_events, rej
 
     with concurrent.futures.ThreadPoolExecutor(max_workers=min(8, len(chunks) or 1)) as ex:
